@@ -297,6 +297,23 @@ def rule_r2(facts, col):
         if not fl and flushers:
             fl = [bb for bb, t in body.calls_to(flushers)]
         wr = [bb for bb, t in body.calls_to(wrappers)] if wrappers else []
+        if wa and not fl:
+            # `self.f.write_all(&line).and_then(|()| self.f.flush())?`: the flush runs in a closure, exactly when the write was
+            # Ok, and the `?` sees the result of both - the and_then call stands for "write_all ok, then flush"
+            for bb, t in body.calls():
+                if (t["f"].get("q") or "").startswith("std::result::Result::") and t["f"].get("name") == "and_then" and len(t["args"]) == 2:
+                    r0 = peel(body.operand_expr(t["args"][0]), through_try=False)
+                    if not (r0.k == "call" and r0.bb in wa):
+                        continue
+                    for x in walk(body.operand_expr(t["args"][1])):
+                        if x.k == "agg" and x.ak == "closure" and x.q:
+                            cb = facts.by_path.get(x.q)
+                            if cb is None:
+                                continue
+                            cfl = [b2 for b2, t2 in cb.calls_to(FLUSH)]
+                            rets = set(cb.return_blocks())
+                            if cfl and (0 in cfl or not (cb.reachable(0, avoid=set(cfl)) & rets)):
+                                wa, fl = [bb], [bb]
         if wr and not wa and not fl:
             # the helper stands for write_all followed by flush
             wa, fl = [wr[0]], [wr[0]]
@@ -405,6 +422,11 @@ def rule_r3(facts, col, rule_id="C17.R3", scope=None):
             else:
                 col.ok(rule_id, key, body.where(cbb), "the whole consumed window is walked: no dropping adaptor or sub-slice on it")
 
+
+
+# a body that raises an alarm as compiled is judged again on its work view (effects.view_fallback)
+rule_r2 = effects.view_fallback(rule_r2)
+rule_r3 = effects.view_fallback(rule_r3)
 
 def run(ctx):
     facts = ctx.facts("default")
